@@ -231,6 +231,25 @@ class Frac:
             r = mul(r, fpow(self.factors[k], n))
         return r
 
+    def _split(self, t, d, power):
+        """register the multiplicative factors of a denominator term in multiset d; returns the numeric
+        coefficient that is left over (divided out of the numerator)"""
+        if is_num(t):
+            return fpow(t, power)
+        kind = t.decl().kind()
+        if kind == z3.Z3_OP_MUL:
+            c = ONE
+            for ch in t.children():
+                c = mul(c, self._split(ch, d, power))
+            return z3.simplify(c) if not is1(c) else c
+        if kind == z3.Z3_OP_POWER and is_num(t.arg(1)) and num_value(t.arg(1)).denominator == 1 and num_value(t.arg(1)) > 0:
+            return self._split(t.arg(0), d, power * int(num_value(t.arg(1))))
+        if kind == z3.Z3_OP_UMINUS:
+            return -self._split(t.arg(0), d, power) if power % 2 else self._split(t.arg(0), d, power)
+        self.factors[t.get_id()] = t
+        d[t.get_id()] = d.get(t.get_id(), 0) + power
+        return ONE
+
     def of(self, t):
         k = t.get_id()
         if k in self.memo:
@@ -268,14 +287,12 @@ class Frac:
         elif kind == z3.Z3_OP_DIV:
             n1, d1 = self.of(ch[0])
             n2, d2 = self.of(ch[1])
-            n2s = z3.simplify(n2)
             d = dict(d1)
-            if not is_num(n2s):
-                self.factors[n2s.get_id()] = n2s
-                d[n2s.get_id()] = d.get(n2s.get_id(), 0) + 1
-                r = (mul(n1, self.dterm(d2)), d)
-            else:
-                r = (mul(div(n1, n2s), self.dterm(d2)), d)
+            coeff = self._split(z3.simplify(n2), d, 1)
+            num = mul(n1, self.dterm(d2))
+            if not is1(coeff):
+                num = div(num, coeff)
+            r = (num, d)
         else:
             r = (t, {})
         self.memo[k] = r
@@ -469,3 +486,42 @@ def free_vars(t, acc=None, seen=None):
     for c in t.children():
         free_vars(c, acc, seen)
     return acc
+
+
+def subst(t, mapping, memo=None):
+    """substitute plain variables (mapping: list of (var, term)); purified applications whose arguments
+    change are rebuilt through their constructors (so EXP(0) -> 1, LOG(1) -> 0 fold)"""
+    from .symx import SQRT
+
+    if memo is None:
+        memo = {}
+    k = t.get_id()
+    if k in memo:
+        return memo[k]
+    if is_num(t):
+        r = t
+    elif z3.is_const(t):
+        r = t
+        for v, val in mapping:
+            if t.eq(v):
+                r = val
+                break
+        else:
+            hit = Pure.lookup(t)
+            if hit is not None:
+                name, args = hit
+                nargs = [subst(a, mapping, memo) for a in args]
+                if any(not a.eq(b) for a, b in zip(args, nargs)):
+                    nargs = [z3.simplify(a) for a in nargs]
+                    if name == "EXP":
+                        r = EXP(nargs[0])
+                    elif name == "LOG":
+                        r = LOG(nargs[0])
+                    elif name == "SQRT":
+                        r = SQRT(nargs[0])
+                    else:
+                        r = Pure.app(name, nargs)
+    else:
+        r = t.decl()(*[subst(c, mapping, memo) for c in t.children()])
+    memo[k] = r
+    return r
